@@ -54,7 +54,7 @@ CHECKS = {
    note="Trusted: synctest fake clock; retention counted from the first lookup; configuration changes serial among themselves; simHAProxy answers what the scenario tells it to.",
    technique="deterministic simulation: seeded reload/revert/transaction histories with retention-instant clock targets and lock-site interleaving against a reference version table"),
  "C17": dict(
-   text="Seeded deterministic simulation in both modes: the real policy-mode RetryPlugin (state in MemoryCache, TTL cooldown+31 s, clock gaps at the state lifetime -1 ns / exactly / +1 ns, id reuse, 3 interleaved sequences) and the real streams engine with a Filter -> Retry response flow whose cool-down waits run on the fake clock, several sequences concurrently in flight and interleaved at instrumented lock sites. Oracle per logical call: R1 retry verdicts <= attempts, R2 failure after exhaustion and a later call starting afresh is granted its retry, R3 out-of-condition responses never retry and (policy mode) end the sequence. Sampling, not proof.",
+   text="Seeded deterministic simulation in both modes and through the policy-mode dispatcher (real runner.DispatchOnRequest/OnResponse with real PoliciesServices; a logical call is re-sent while a retry is asked for, the retry-eligible answer being a provider response or an early response of the gateway itself): the real policy-mode RetryPlugin (state in MemoryCache, TTL cooldown+31 s, clock gaps at the state lifetime -1 ns / exactly / +1 ns, id reuse, 3 interleaved sequences) and the real streams engine with a Filter -> Retry response flow whose cool-down waits run on the fake clock, several sequences concurrently in flight and interleaved at instrumented lock sites. Oracle per logical call: R1 retry verdicts <= attempts, R2 failure after exhaustion and a later call starting afresh is granted its retry, R3 out-of-condition responses never retry and (policy mode) end the sequence. Sampling, not proof.",
    design_ref="DESIGN.md section 4 C17",
    note="Trusted: synctest fake clock; definition of a logical call (txn id == sequence id starts one); fewer retries than configured are within 'at most' (no exactness rule); flows-mode 'ends the sequence' not checked (conditions live in the flow's Filter).",
    technique="deterministic simulation: seeded response-status histories across interleaved sequences with state-lifetime clock targets, per-call reference counter"),
